@@ -121,6 +121,8 @@ TSplit == /\ Ev("split") /\ tphase = "idle"
 \* histories: the result for a module does not depend on unrelated modules compiled before it
 THist == /\ Ev("hist") /\ tphase = "idle"
          /\ LET r == Rec[l] IN
+            \* the three compilations ended by themselves (a compiler process that dies is no result at all)
+            /\ "died" \notin DOMAIN r
             /\ Same(r.alone, r.after) /\ r.alone.diags = r.after.diags /\ r.alone.lints = r.after.lints
             /\ r.alone.ok => Same(r.alone, r.linked)
          /\ l' = l + 1 /\ UNCHANGED <<tphase, taken, mods, cur, todo, phase>>
